@@ -1,7 +1,7 @@
 #!/bin/bash
 # usage: tools/runall.sh [tier] [seed]  - runs every registered check sequentially, prints one line each
 TIER="${1:-quick}"; export VERIF_SEED="${2:-1}"
-cd /verif
+cd "$(dirname "$0")/.."
 for p in C01 C02 C03 C04 C05 C06 C07 C08 C09 C10 C11 C12 C13 C14 C15 C16 C17 C18 C19 C20; do
   s=$(date +%s); out=$(./check $p $TIER 2>&1); rc=$?; e=$(date +%s)
   echo "$p rc=$rc $((e-s))s :: $(echo "$out" | tail -1 | cut -c1-200)"
